@@ -795,7 +795,12 @@ C14_back(step) ==
   LET U == GUnified(step) IN
   Cl("C14_back", step.op.op = "Graph" /\ step.exc = "none" /\ ~SkippedInfluence(U),
      SameBag(ContentSeq(step.res.back.recs), GElements(U) \o GEdgeRecs(U)))
-C14Clauses(step) == IF step.op.op = "Graph" THEN {C14_nodes(step), C14_edges(step), C14_back(step)} ELSE {}
+(* the conversion (both ways) raises only when the document cannot be unified *)
+C14_noexc(step) ==
+  Cl("C14_noexc", step.op.op = "Graph" /\ "con" \in DOMAIN step.pre
+                  /\ ~ConflictAnyKind(step.pre.con[step.op.h].recs),
+     step.exc = "none")
+C14Clauses(step) == IF step.op.op = "Graph" THEN {C14_nodes(step), C14_edges(step), C14_back(step), C14_noexc(step)} ELSE {}
 
 -----------------------------------------------------------------------------
 (* C15 — DOT output is always valid Graphviz: one node per element, one path per  *)
